@@ -16,7 +16,8 @@ fn all_diffs(len: usize, payloads: &[Vec<u32>], val: u32) -> Vec<VectorDiff<u32>
     }
     v.push(VectorDiff::PushFront { value: val });
     v.push(VectorDiff::PushBack { value: val });
-    for i in 0..=len + 1 {
+    // all indices / lengths up to one beyond the end, and the edges of usize and isize
+    for i in (0..=len + 1).chain([usize::MAX, usize::MAX - 1, usize::MAX / 2, usize::MAX / 2 + 1]) {
         v.push(VectorDiff::Insert { index: i, value: val });
         v.push(VectorDiff::Set { index: i, value: val });
         v.push(VectorDiff::Remove { index: i });
